@@ -349,7 +349,16 @@ type node struct {
 	stuck  chan string   // driver gave up (retry handler)
 }
 
-func startNode(dbPath string, sim *l2sim, li *l1info) (*node, error) {
+// dlFactory builds the downloader under test around the freshly opened processor.
+type dlFactory func(p *lastgersync.VerifC16Processor, rh *sync.RetryHandler, bf *big.Int) (sync.Downloader, error)
+
+func ppFactory(sim *l2sim, li *l1info) dlFactory {
+	return func(p *lastgersync.VerifC16Processor, rh *sync.RetryHandler, bf *big.Int) (sync.Downloader, error) {
+		return lastgersync.NewVerifC16DownloaderPP(sim, gerAddr, li, p, rh, bf, 20*time.Microsecond)
+	}
+}
+
+func startNode(dbPath string, mk dlFactory) (*node, error) {
 	p, err := lastgersync.NewVerifC16Processor(dbPath)
 	if err != nil {
 		return nil, err
@@ -360,7 +369,7 @@ func startNode(dbPath string, sim *l2sim, li *l1info) (*node, error) {
 	if err != nil {
 		return nil, err
 	}
-	dl, err := lastgersync.NewVerifC16DownloaderPP(sim, gerAddr, li, p, rh, bf, 20*time.Microsecond)
+	dl, err := mk(p, rh, bf)
 	if err != nil {
 		return nil, err
 	}
@@ -493,7 +502,7 @@ func run(in In) (out Out) {
 			}
 			exhausted = sim.setSchedule(seg.Polls)
 			var err error
-			n, err = startNode(dbPath, sim, li)
+			n, err = startNode(dbPath, ppFactory(sim, li))
 			if err != nil {
 				out.Err = err.Error()
 				return out
@@ -918,6 +927,10 @@ func main() {
 	defer os.RemoveAll(tmpRoot)
 	if *prop == "c07" || *prop == "c04" {
 		storeMain(f, *prop)
+		return
+	}
+	if *prop == "fep" {
+		fepMain(f)
 		return
 	}
 	var ins []In
